@@ -44,8 +44,26 @@ OPS = ["skip", "havespace", "getscript", "putscript", "deletescript", "setactive
        "putscript", "getscript", "capability", "listscripts", "logout", "reconnect"]
 
 
-def value(f, label, maxlen=12):
-    kind = f.weighted(label + ".kind", [4, 3, 1])
+def value(f, label, maxlen=12, earlier=None):
+    kind = f.weighted(label + ".kind", [4, 3, 1, 2 if earlier else 0])
+    if kind == 3:
+        # derived from a value used earlier in the same session: what it would look like once encoded, quoted,
+        # escaped ... (caches keyed by the wrong thing, state shared between arguments)
+        base = earlier[f.int(label + ".which", len(earlier))]
+        t = f.int(label + ".derive", 7)
+        if t == 0:
+            return "{%d+}\r\n%s" % (len(base.encode("utf-8")), base)
+        if t == 1:
+            return '"%s"' % base
+        if t == 2:
+            return base.replace("\\", "\\\\").replace('"', '\\"')
+        if t == 3:
+            return "{%d}" % len(base.encode("utf-8"))
+        if t == 4:
+            return base + "\r\n"
+        if t == 5:
+            return base.swapcase()
+        return base
     if kind == 1:
         return WHOLE[f.int(label + ".whole", len(WHOLE))]
     if kind == 2:
@@ -207,6 +225,7 @@ def run(ch, config, res):
     srv.scripts[b"beta"] = b"stop;\r\n"
     srv.active = b"beta"
     failure = None
+    used = []
     world.net.sendall_faults = True
     with world:
         client = world.new_client()
@@ -221,13 +240,13 @@ def run(ch, config, res):
                         continue
                     if meth == "havespace":
                         sz = [0, 1, 1000, 4294967296, 1 << 40][wl.int("size", 5)]
-                        args = (value(wl, "name"), sz)
+                        args = (value(wl, "name", earlier=used), sz)
                     elif meth in ("getscript", "deletescript", "setactive"):
-                        args = (value(wl, "name"),)
+                        args = (value(wl, "name", earlier=used),)
                     elif meth == "putscript":
-                        args = (value(wl, "name"), value(wl, "content", 40))
+                        args = (value(wl, "name", earlier=used), value(wl, "content", 40, earlier=used))
                     elif meth == "checkscript":
-                        args = (value(wl, "content", 40),)
+                        args = (value(wl, "content", 40, earlier=used),)
                     elif meth in ("capability", "listscripts", "logout"):
                         args = ()
                     elif meth == "reconnect":
@@ -239,11 +258,12 @@ def run(ch, config, res):
                         continue
                     elif meth == "renamescript":
                         if version:
-                            args = (value(wl, "name"), value(wl, "name2"))
+                            args = (value(wl, "name", earlier=used), value(wl, "name2", earlier=used))
                         else:
                             # emulated: old must exist for anything to be sent beyond LISTSCRIPTS
-                            args = (["alpha", "beta"][wl.int("old", 2)], value(wl, "name2"))
+                            args = (["alpha", "beta"][wl.int("old", 2)], value(wl, "name2", earlier=used))
                     faults_before = world.net.stats.probes.get("sendall_timeout", 0)
+                    used.extend(a for a in args if isinstance(a, str) and len(a) < 200)
                     o = world.call(client, meth, *args)
                 if world.net.stats.probes.get("sendall_timeout", 0) > faults_before:
                     # injected fault: a sendall of this call timed out before writing anything; the call's own outcome
